@@ -53,6 +53,16 @@ theorem getTopic_precreate_before_start :
     getTopicGuards = ["if atomic.LoadInt32(&n.isLoading) == 1", "if len(lookupdHTTPAddrs) > 0",
       "if strings.HasSuffix(channelName, \"#ephemeral\")"] := ⟨rfl, rfl⟩
 
+/-- Statement shape of the pre-creation: the `GetChannel` loop over the returned names is enclosed only by "some
+lookupd is known" — **not** by a test of the query's error — and `GetLookupdTopicChannels` returns the partial union
+together with the error when only some lookupds failed, `nil` only when all failed (`precreate`: union over the
+`some` answers). -/
+theorem getTopic_loop_not_guarded_by_err :
+    getTopicNesting = [("GetLookupdTopicChannels", ["if len(lookupdHTTPAddrs) > 0"]),
+      ("GetChannel", ["if len(lookupdHTTPAddrs) > 0", "for range channelNames"]), ("Start", [])] ∧
+    topicChannelsContract = ["if len(errs) == len(lookupdHTTPAddrs)", "if len(errs) > 0",
+      "return return channels, ErrList(errs)", "return return channels, nil"] := ⟨rfl, rfl⟩
+
 /-- `Notify` hands the object to lookupLoop from its own goroutine (unordered: the model's bag). -/
 theorem notify_is_a_goroutine : notifySend = ["call:Wrap", "call:verifPoint"] := rfl
 
